@@ -43,6 +43,10 @@ CHECKS = {
             "Runtime monitor of bounded progress in virtual time: PRNG fault scripts (loss, duplication, delay/reordering, partitions, one-way blocks, crashes, hung processes, same-address restarts, address take-over by another name, leaves, metadata updates) on real clusters; at T_stop the stated connectivity precondition is evaluated on Members(); judged scenarios must reach 'every live node lists exactly the live nodes with the owner's current metadata, suspects nobody live, lists nobody crashed or departed' within the settle bound (re-checked to 4x). A deterministic classifier names each failure; one named failure is a registered known finding (C05/bridge-only-suspect, reproduced by a scripted state-triggered scenario on every run), every other failure is a VIOLATION.",
             "Trusts synctest, the simulated network (datagrams drop/dup/delay/reorder; TCP dials retransmit the SYN with exponential backoff), the settle bound formula.",
             "bounded-convergence oracle over fault scripts (virtual time) with finding classifier", "DESIGN.md §3 C05"),
+    "C07": ("E1-simnet + E2-rig (event monitor attached everywhere)", "exploration",
+            "Online trace-specification checker: the recording EventDelegate asserts, inside every callback and at every quiescent point of every scenario of every check, serialization (in-flight counter), the per-member join (update)* leave automaton, and equality of the replayed event set with the live table / Members() including metadata and address. This check drives it with churn fault scripts (short GossipToTheDeadTime so reaping happens) and same-instant multi-goroutine claim bursts, and requires every transition x cause cell (cause read from the callback's own stack) to have been observed.",
+            "Trusts that memberlist invokes event delegates under its node lock (the in-callback comparison reads the table unlocked; if that assumption is broken the monitor reports it as overlap/mismatch), synctest quiescence.",
+            "online event-automaton + replay-equals-Members monitor (in-callback and quiescent)", "DESIGN.md §3 C07"),
 }
 
 NOT_YET = "check not built yet in this round (design in DESIGN.md §3); not claimed until its monitor runs clean on the unchanged tree"
@@ -78,7 +82,7 @@ def main():
             "add_only": True,
         },
         "engines": [
-            {"name": "E1-simnet", "path": "harness/simnet.go", "serves_properties": ["C02", "C03", "C04", "C05", "C17"], "kind_free_text": "real Memberlist instances on an in-memory transport inside a testing/synctest bubble (virtual time), with wire tap, fault scripts and fake peers"},
+            {"name": "E1-simnet", "path": "harness/simnet.go", "serves_properties": ["C02", "C03", "C04", "C05", "C07", "C17"], "kind_free_text": "real Memberlist instances on an in-memory transport inside a testing/synctest bubble (virtual time), with wire tap, fault scripts and fake peers"},
             {"name": "E2-model-lockstep", "path": "harness/", "serves_properties": ["C01", "C02", "C06", "C10", "C17", "C18"], "kind_free_text": "PRNG operation sequences against one object with an executable reference model evaluated in lock-step"},
         ],
         "checks": checks,
